@@ -68,6 +68,10 @@ func exec(op string) vlib.Res {
 		if need(6) {
 			return execDoH(f)
 		}
+	case "nslookup run":
+		if need(10) {
+			return execNsLookup(f)
+		}
 	case "nsaddr run":
 		if need(3) {
 			return execNsAddr(f)
@@ -578,6 +582,67 @@ func genRelay(r *vlib.R, emit func(string)) {
 	emit(fmt.Sprintf("relay run %s %s", zone, strings.ReplaceAll(listOrDash(as), ",", ";")))
 }
 
+// genNsLookup: a referral's glue followed by the address lookup of one of its name servers: the host with and
+// without accepted glue, in and out of bailiwick, the own lookup failing / SERVFAIL / REFUSED / NODATA /
+// answering with usable, loopback, local, mapped and foreign-owner addresses.
+func genNsLookup(r *vlib.R, local []string, emit func(string)) {
+	zone := vlib.Pick(r, []string{"evil.test.", "sub.evil.test.", "example.com.", "test."})
+	qname := under("x", under("c", zone))
+	level := strings.Count(zone, ".")
+	if r.Chance(1, 6) {
+		level += r.Intn(3) - 1
+		if level < 0 {
+			level = 0
+		}
+	}
+	cands := []string{under("ns1", zone), under("ns2", zone), "ns1.victim.test.", "mail.victim.test.", under("ns", under("c", zone)), "nsevil.test."}
+	var hosts []string
+	for _, c := range cands {
+		if r.Chance(1, 2) {
+			hosts = append(hosts, c)
+		}
+	}
+	host := vlib.Pick(r, cands)
+	if r.Chance(3, 4) {
+		found := false
+		for _, h := range hosts {
+			found = found || h == host
+		}
+		if !found {
+			hosts = append(hosts, host)
+		}
+	}
+	var extras []string
+	for i := r.Intn(5); i > 0; i-- {
+		o := vlib.Pick(r, cands)
+		if r.Chance(1, 2) {
+			o = host
+		}
+		if r.Chance(1, 4) {
+			o = flipCase(r, o)
+		}
+		extras = append(extras, fmt.Sprintf("%s/%s/%s", o, vlib.Pick(r, []string{"A", "A", "AAAA", "X"}), genAddrHex(r, local)))
+	}
+	sub := "F"
+	if r.Chance(5, 6) {
+		var rrs []string
+		for i := r.Intn(4); i > 0; i-- {
+			o := host
+			if r.Chance(1, 4) {
+				o = "www.victim.test."
+			}
+			rrs = append(rrs, fmt.Sprintf("%s/%s/%s", o, vlib.Pick(r, []string{"A", "A", "AAAA", "X"}), genAddrHex(r, local)))
+		}
+		body := "-"
+		if len(rrs) > 0 {
+			body = strings.Join(rrs, "+")
+		}
+		sub = fmt.Sprintf("R%d:%s", vlib.Pick(r, []int{0, 0, 0, 2, 2, 5, 3}), body)
+	}
+	emit(fmt.Sprintf("nslookup run %s %d %s %s %s %s %s %s", vlib.B(r.Chance(1, 2)), level, qname, listOrDash(hosts),
+		strings.ReplaceAll(listOrDash(extras), ",", ";"), host, vlib.B(r.Chance(1, 3)), sub))
+}
+
 func genNsAddr(r *vlib.R, local []string, emit func(string)) {
 	n := r.Intn(6)
 	var rs []string
@@ -738,7 +803,7 @@ func genL3(r *vlib.R, tier string, emit func(string)) {
 	// name server without accepted AAAA glue two (real) seconds after the referral - one settle per world
 	flavour = "plain+v6"
 	for _, mode := range []string{"cold", "warm"} {
-		v6shapes := []string{"nsaddr6-loop", "nsaddr6-mapped-loop", "nsaddr6-local", "nsaddr6-foreign", "nsaddr6-honest", "glue6-loop", "glue-loop", "glue-local", "nsaddr-extra", "glue-oob"}
+		v6shapes := []string{"checkhosts-loop6", "checkhosts-loop", "glue-oob-outage6", "nsaddr6-loop", "nsaddr6-mapped-loop", "nsaddr6-local", "nsaddr6-foreign", "nsaddr6-honest", "glue6-loop", "glue-loop", "glue-local", "nsaddr-extra", "glue-oob"}
 		for i := len(v6shapes) - 1; i > 0; i-- {
 			j := r.Intn(i + 1)
 			v6shapes[i], v6shapes[j] = v6shapes[j], v6shapes[i]
@@ -848,10 +913,13 @@ func gen(r *vlib.R, n int, tier string, emit func(string)) {
 		case k < 18:
 			genCachef(r, emit)
 		case k < 19:
-			if r.Bool() {
+			switch r.Intn(4) {
+			case 0:
 				genRelay(r, emit)
-			} else {
+			case 1:
 				genNsAddr(r, local, emit)
+			default:
+				genNsLookup(r, local, emit)
 			}
 		case k < 23:
 			genChase(r, emit)
@@ -1026,6 +1094,47 @@ func dnameTargetResolvedSeparately(file string) bool {
 		return len(fromExchange) > 0 && !readsAnswer && ok2
 	}
 	return false
+}
+
+// addrBuilders lists, over resolver.go and utils.go, the functions that build a netip.Addr from raw bytes
+// or text. Record addresses must go through usableAddr (the proved filter); the only other legitimate
+// builder is checkPriming, which reads the operator-configured root hints' answers.
+func addrBuildersOK(files ...string) bool {
+	allowed := map[string]bool{"usableAddr": true, "checkPriming": true}
+	builders := map[string]bool{"AddrFromSlice": true, "AddrFrom4": true, "AddrFrom16": true, "ParseAddr": true, "MustParseAddr": true}
+	ok := true
+	seenUsable := false
+	for _, file := range files {
+		fset := token.NewFileSet()
+		f, err := parser.ParseFile(fset, file, nil, 0)
+		if err != nil {
+			return false
+		}
+		for _, d := range f.Decls {
+			fd, isF := d.(*ast.FuncDecl)
+			if !isF || fd.Body == nil {
+				continue
+			}
+			ast.Inspect(fd.Body, func(n ast.Node) bool {
+				c, isC := n.(*ast.CallExpr)
+				if !isC {
+					return true
+				}
+				if sel, isS := c.Fun.(*ast.SelectorExpr); isS && builders[sel.Sel.Name] {
+					if id, isI := sel.X.(*ast.Ident); isI && id.Name == "netip" {
+						if fd.Name.Name == "usableAddr" {
+							seenUsable = true
+						}
+						if !allowed[fd.Name.Name] {
+							ok = false
+						}
+					}
+				}
+				return true
+			})
+		}
+	}
+	return ok && seenUsable
 }
 
 // levelWrites inspects every write to rs.level in resolver.go: (a) resolveWithCachedNameservers
@@ -1215,10 +1324,17 @@ func facts() map[string]any {
 		}(),
 		// the DNAME target spliced in by answer() after the zone filter is the target's own resolution, never part of the same message
 		"shape_dname_target_resolved_separately": dnameTargetResolvedSeparately(rfile),
-		"in_zone_probe":                          inZone,
-		"question_match_probe":                   qm,
-		"progressing_probe":                      prog,
-		"compare_suffix_probe":                   cmp,
+		// no function of the resolver other than usableAddr (and checkPriming for the configured root hints) turns raw bytes into an address
+		"shape_addresses_built_only_by_usableAddr": addrBuildersOK(rfile, filepath.Join(repo, "middleware/resolver/utils.go")),
+		// the recovery branch re-learns addresses through the same two lookups as everything else
+		"shape_checkhosts_uses_filtered_lookups": func() bool {
+			c := callOrder(rfile, "checkHosts", "lookupNSAddrV4", "lookupNSAddrV6", "internalExchange", "subQuery")
+			return c[0] >= 0 && c[1] >= 0 && c[2] < 0 && c[3] < 0
+		}(),
+		"in_zone_probe":        inZone,
+		"question_match_probe": qm,
+		"progressing_probe":    prog,
+		"compare_suffix_probe": cmp,
 	}
 }
 
